@@ -4,6 +4,18 @@ import json, os, sys
 VERIF = os.path.dirname(os.path.dirname(os.path.abspath(__file__)))
 ALL = ['C%02d' % i for i in range(1, 20)]
 CHECKS = {
+ 'C02': dict(engine='langenum', design='4/C02',
+   text='Bounded exhaustive enumeration: every SGR code list up to length 5/6 over an 11-code alphabet (set, clear, reset, unknown, extended-colour ingredients) after 5 prior-state contexts, and every token sequence up to length 5/6 over 13 tokens (text, 6 SGR sequences, non-SGR/unterminated control sequences, lone ESC and [), constructed through the real AnsiString/AnsiStr and compared character by character with an independent SGR terminal run over the raw input.',
+   note='Trusted: mc/refterm.py. Ambiguous SGR readings (38;x, components>255) are checked for text only. Not claimed beyond the stated lengths/alphabets.',
+   technique='explicit-state exhaustive enumeration of the input prefix tree against a reference SGR terminal'),
+ 'C04': dict(engine='explore', design='4/C04',
+   text='Explicit-state BFS over real AnsiString objects (histories of apply/remove over every range with conflicting, equal and multi-parameter settings, plus concat/pad/slice steps; dedup by exact canonical object graph) to depth 2 (quick) / 3 (thorough) on texts of length 1-6; in every state every (start, stop) in ([-L-2..L+2]+None)^2 through v[i:j], clip, AnsiStr slicing, every integer index, step-1 slice objects, in-place clip and iteration is compared with Python slicing of the per-character model, and every result is probed for closedness by appending to it.',
+   note='Trusted: mc/model.py abstraction (public ansi_settings_at) and equivalence (multiset + per-effect-group order). Bounds: <=3 live spans, L<=6.',
+   technique='explicit-state BFS over operation histories of the real objects with lock-step reference-model comparison'),
+ 'C18': dict(engine='langenum', design='4/C18',
+   text='Bounded exhaustive enumeration: every code list of length 0..5/6 over 14 codes in three input forms x add_erroneous, every code 0..255, every ordered pair of known codes, every sequence of <=4 parameter groups (complete and incomplete extended colours), and settings_to_dict on every (list<=3, prior list<=2); each reduced state compared with an independent SGR terminal, arguments snapshotted.',
+   note='Trusted: mc/refterm.py. Ambiguous lists excluded from the state clause (counted).',
+   technique='explicit-state exhaustive enumeration of code lists against a reference SGR reducer'),
  'C19': dict(engine='langenum', design='4/C19',
    text='Bounded exhaustive enumeration (prefix tree) of every string up to length 6 (quick) / 7 (thorough) over a 9-symbol alphabet (ESC, [, digit, ;, ?, m, another final byte, space, non-ASCII) x the 6 constructor flag combinations, each parsed by the real ParsedAnsiControlSequenceString and compared with an independent regex tokenizer and a re-inserter; every helper function x 8 boundary integers. Exhaustive within the bound, which covers every way up to three sequences and text can abut, nest or be cut short.',
    note='Trusted: mc/reftok.py (15 lines); inputs whose parameter bytes lie outside 0x30-0x3F are judged on losslessness only. Not claimed beyond length 7 / other alphabets.',
